@@ -9,9 +9,9 @@ import engine as E
 VERIF = E.VERIF
 UNIT_TOOL = {"field": "field", "strip": "parser", "valueops": "ps", "degree": "ps"}
 # engine name -> (tool dir, argument prefix)
-ENGINES = {"field": ("field", ["bounded"]), "parser": ("parser", ["bounded"]), "valueops": ("ps", ["bounded", "valueops"]), "degree": ("ps", ["bounded", "degree"]), "degree_expr": ("ps", ["bounded", "degree_expr"]), "dom": ("ps", ["bounded", "dom"])}
+ENGINES = {"field": ("field", ["bounded"]), "parser": ("parser", ["bounded"]), "valueops": ("ps", ["bounded", "valueops"]), "degree": ("ps", ["bounded", "degree"]), "degree_expr": ("ps", ["bounded", "degree_expr"]), "dom": ("ps", ["bounded", "dom"]), "cfg": ("parser", ["bounded-cfg"])}
 UNIT_ENGINE = {"field": "field", "strip": "parser", "valueops": "valueops", "degree": "degree", "dom": "dom"}           # unit -> tools/replay/<dir>
-PROP_BOUNDED = {"C16": ["field"], "C01": ["field", "parser"], "C05": ["parser"], "C04": ["parser"], "C06": ["valueops"], "C07": ["degree", "degree_expr"], "C15": ["dom"]}
+PROP_BOUNDED = {"C16": ["field"], "C01": ["field", "parser"], "C05": ["parser"], "C04": ["parser"], "C06": ["valueops"], "C07": ["degree", "degree_expr"], "C15": ["dom"], "C12": ["cfg"]}
 
 
 def _build(tool):
